@@ -113,7 +113,7 @@ harness(void)
 	end0 = tentativedefnsend;
 	tok.kind = TINT;
 	g_empty = !V_FUNC && in_empty;
-	if (g_empty) { t_obj.kind = in_tag ? TYPESTRUCT : TYPEINT; }
+	if (g_empty) { t_obj.kind = in_tag ? TYPESTRUCT : TYPEINT; g_no_error = in_tag; }    /* `struct S;` must not be rejected */
 
 	r = decl(&filescope, 0);
 
